@@ -327,6 +327,9 @@ def norm_and_apply(ck, fb):
                 ok = absform and divided
             else:
                 ok = plain and divided
+            if name == "mean" and re.search(r"\b(l1_norm|mean_abs)\(\)", s):
+                ck.violate("C19.l1", f.where, "%s::mean sums the plain components (it is computed from %s, i.e. from absolute values)" % (f.cls.replace("OpenVolumeMesh::Geometry::", ""), s[:40]), "C19.l1:mean")
+                continue
             if not (absform or plain):
                 ck.cannot_judge("%s: %s is written in a form rule C19.l1 does not know (%s) - re-audit" % (f.where, name, s[:80]))
                 continue
